@@ -57,7 +57,7 @@ structure Fr (p : Prog) (m : Mem) (F D : Nat) : Prop where
   ap : m.readLE 0 p.w = 5 * p.w
   top : F ≤ m.size
   lt : F < 256 ^ p.w
-  room : 5 * p.w + D ≤ F
+  room : 5 * p.w + D = F
 
 theorem Fr.keep {p : Prog} {m m' : Mem} {F D a : Nat} (h : Fr p m F D) (k : Keep p.w m m' a) : Fr p m' F D :=
   ⟨by rw [k.fp]; exact h.fp, by rw [k.ap]; exact h.ap, by rw [k.size]; exact h.top, h.lt, h.room⟩
